@@ -78,7 +78,7 @@ def import_state(st: Dict[str, Any]) -> None:
 
 def plan(tier: str) -> Dict[str, Any]:
     if tier == "thorough":
-        return {"runs": 400_000, "chunk": 150, "budget_s": 780, "chunk_hard_s": 900, "minimise_s": 120}
+        return {"runs": 400_000, "chunk": 80, "budget_s": 780, "chunk_hard_s": 900, "minimise_s": 120}
     return {"runs": 5_600, "chunk": 40, "budget_s": 50, "chunk_hard_s": 300, "minimise_s": 45}
 
 
